@@ -9,7 +9,7 @@ REGISTRY = {
         'not_covered': [],
     },
     'C04': {
-        'v': ['c04_keystate'],
+        'v': ['c04_keystate', 'c04_objects'],
         'k': [],
         'level_text': 'State-machine contracts on the real key-roll code: each apply_* requires exactly its non-panicking phase and ensures the target phase and which key moves where; each emit function produces a key event only in the phase where it is enabled (so the returned sequence can be applied without reaching a panic arm). Inductive per command; liveness and cross-command interleavings beyond per-command preservation are not decided.',
         'level_note': 'CertAuth::apply dispatch from event to apply_* is transcribed in the spec fn ev_enabled (not extracted); signer, renewals and child-certificate re-issue are opaque externals; time is an input.',
